@@ -26,7 +26,7 @@ echo "== demo with the change (must fail)"
 rm -rf "$WT/demo"
 for p in $PROPS; do
   echo "== check $p quick against the changed tree"
-  out=$(VERIF_REPO="$WT" "$ROOT/check" "$p" quick 2>&1); rc=$?
+  out=$(VERIF_REPO="$WT" VERIF_OUT="$(dirname "$WT")/out" "$ROOT/check" "$p" quick 2>&1); rc=$?
   echo "$out" | grep -a "^VIOLATION\|held on\|INCONCLUSIVE" | head -4 | cut -c1-300
   echo "$out" | grep -a -A3 "^VIOLATION" | head -8 | cut -c1-400
   if [ $rc -eq 1 ]; then echo "RESULT $p FIRED"; else echo "RESULT $p MISSED (exit $rc)"; fi
